@@ -77,7 +77,10 @@ fn tamper(cx: &mut Cx, verifier: NodeId, key: Arc<KeyMat>, p: Presentation) {
     if !p.revealed.is_empty() { let mut q = p.clone(); q.revealed.pop(); deliver(cx, verifier, q, "revealed_drop_last".into(), false); }
     // keys and bases
     { let other = pool_key((key.idx + 1) % POOL_SIZE); let mut q = p.clone(); q.pk = other.pk.clone(); deliver(cx, verifier, q, "misroute_key".into(), false); }
-    { let mut q = p.clone(); q.bases = key.bases2.0[..n].to_vec(); deliver(cx, verifier, q, "misroute_bases".into(), false); }
+    // (a base only matters for hidden attributes and for revealed non-zero ones: a_i^0 = 1)
+    let revealed_idx: Vec<usize> = (0..n).filter(|i| !p.hidden.contains(i)).collect();
+    let bases_matter = !p.hidden.is_empty() || revealed_idx.iter().enumerate().any(|(k, _)| p.revealed[k] != 0);
+    if bases_matter { let mut q = p.clone(); q.bases = key.bases2.0[..n].to_vec(); deliver(cx, verifier, q, "misroute_bases".into(), false); }
     { let mut q = p.clone(); q.cpk = key.cpk2.clone(); deliver(cx, verifier, q, "misroute_commitment_key".into(), false); }
     { let mut q = p.clone(); q.cpk.h += 1; deliver(cx, verifier, q, "commitment_key_h:+1".into(), false); }
     // hidden set and count
